@@ -74,6 +74,8 @@ def gen_relay_rules(rng, dests):
   secs = []
   for i in range(n):
     sub = rng.sample(dests, rng.randint(1, len(dests)))
+    if rng.random() < 0.15:
+      sub = sub + [rng.choice(sub)]       # a destination listed twice (legal)
     lines = ['[r%d]' % i, 'pattern = %s' % rng.choice(RULE_PATTERNS),
              'destinations = %s' % ', '.join(dest_str(d) for d in sub)]
     if rng.random() < 0.5:
@@ -127,7 +129,15 @@ def gen_config(rng, tier, profile):
     s['TIME_TO_DEFER_SENDING'] = rng.choice([0, 0, 0.0001])
     s['DYNAMIC_ROUTER'] = False
     s['deep_backlog'] = True
-  if profile in ('c07', 'c15', 'c09') and rng.random() < (0.3 if profile != 'c09' else 0.2):
+  if profile == 'c15' and rng.random() < 0.04:
+    # an outage builds a backlog that then leaves in one message of a few hundred KB
+    s['MAX_QUEUE_SIZE'] = 6000
+    s['MAX_DATAPOINTS_PER_MESSAGE'] = 5000
+    s['DESTINATION_PROTOCOL'] = 'pickle'
+    s['DYNAMIC_ROUTER'] = False
+    s['deep_backlog'] = 'big'
+  if profile in ('c07', 'c15', 'c09') and not s.get('deep_backlog') \
+      and rng.random() < (0.3 if profile != 'c09' else 0.2):
     # connection-quality resets: the relay compares what a destination was sent with
     # what was received over the last instrumentation interval
     s['CARBON_METRIC_INTERVAL'] = rng.choice([2, 5, 10])
@@ -225,7 +235,12 @@ def gen_plan(rng, cfg, tier, profile):
       if rng.random() < 0.8:
         ops.append(['conn_ok', i])
   mq = s['MAX_QUEUE_SIZE']
-  if s.get('deep_backlog'):
+  if s.get('deep_backlog') == 'big':
+    ops = [['flood', rng.choice([2000, 2600]), 60]]     # nothing is connected yet: all of it queues up
+    for i in range(nd):
+      ops.append(['conn_ok', i])
+    ops.append(['advance', 1.0])
+  elif s.get('deep_backlog'):
     ops = [['flood', rng.choice([350, 500])]] + ops
   for _ in range(n):
     k = rng.choice(kinds)
@@ -286,6 +301,7 @@ def gen_plan(rng, cfg, tier, profile):
     plan['dn_idle'] = rng.choice([2, 5, 5, 30])     # the downstream daemon's idle timeout
   if profile in ('c05', 'c06', 'c16'):
     plan['route_checks'] = True
+    plan['route_check_every'] = rng.choice([1, 1, 1, 2, 3, 6])
     plan['stripe'] = rng.choice([211, 997, 4099])
     plan['stripe_off'] = rng.randrange(4099)
     plan['max_positions'] = 500 if tier == 'quick' else 3000
